@@ -756,11 +756,19 @@ impl World {
                         .map(|c| self.mature(c, frac))
                         .unwrap_or(false)
                 });
-                if !ok {
+                let deps_ok = t.tx.cell_deps().into_iter().all(|d| cells.contains_key(&d.out_point()));
+                if !ok || !deps_ok {
                     continue;
                 }
                 for i in t.tx.inputs().into_iter() {
                     cells.remove(&i.previous_output());
+                }
+                // outputs become available to later transactions of the same block
+                for (oi, (o, d)) in t.tx.outputs_with_data_iter().enumerate() {
+                    cells.insert(
+                        OutPoint::new(t.tx.hash(), oi as u32),
+                        MCell { output: o, data: d, block_hash: Byte32::zero(), block_number: number, block_epoch: frac, tx_index: commits.len() + 1 },
+                    );
                 }
                 commits.push(*ti);
             }
@@ -846,18 +854,22 @@ impl World {
         let mut freed = 0u64;
         let all_txs: Vec<TransactionView> =
             std::iter::once(cellbase.clone()).chain(committed.iter().map(|t| t.tx.clone())).collect();
-        // placeholder hash: cells need the block hash, which is known only after building the header;
-        // fill after.
-        for tx in all_txs.iter().skip(1) {
-            for i in tx.inputs().into_iter() {
-                if let Some(c) = cells.remove(&i.previous_output()) {
-                    freed += c.occupied();
+        // sequential replay inside the block: a transaction may spend an output created earlier in
+        // the same block (the creating block's hash is filled in once the header exists)
+        for (ti, tx) in all_txs.iter().enumerate() {
+            if ti > 0 {
+                for i in tx.inputs().into_iter() {
+                    if let Some(c) = cells.remove(&i.previous_output()) {
+                        freed += c.occupied();
+                    }
                 }
             }
-        }
-        for tx in all_txs.iter() {
-            for (o, d) in tx.outputs_with_data_iter() {
+            for (oi, (o, d)) in tx.outputs_with_data_iter().enumerate() {
                 added += occupied(&o, d.len());
+                cells.insert(
+                    OutPoint::new(tx.hash(), oi as u32),
+                    MCell { output: o, data: d, block_hash: Byte32::zero(), block_number: number, block_epoch: frac, tx_index: ti },
+                );
             }
         }
         let pd = &pst.dao;
@@ -910,18 +922,10 @@ impl World {
         let st = if true {
             for (ti, tx) in all_txs.iter().enumerate() {
                 txs.insert(tx.hash(), (idx, ti));
-                for (oi, (o, d)) in tx.outputs_with_data_iter().enumerate() {
-                    cells.insert(
-                        OutPoint::new(tx.hash(), oi as u32),
-                        MCell {
-                            output: o,
-                            data: d,
-                            block_hash: hash.clone(),
-                            block_number: number,
-                            block_epoch: frac,
-                            tx_index: ti,
-                        },
-                    );
+                for oi in 0..tx.outputs().len() {
+                    if let Some(c) = cells.get_mut(&OutPoint::new(tx.hash(), oi as u32)) {
+                        c.block_hash = hash.clone();
+                    }
                 }
             }
             let mut chain = pst.chain.clone();
@@ -1161,5 +1165,201 @@ pub fn mutate(
             (bb.extension(Some(Bytes::from(e).pack())), Some(m.into()))
         }
         _ => (bb, None),
+    }
+}
+
+impl World {
+    /// Take over a block built by somebody else (the node's block assembler): derive its state by
+    /// replay and check every consensus field against what the model computes for that position.
+    /// Err(reason) = the block is not what the model would accept as valid there.
+    pub fn adopt(&mut self, view: &BlockView) -> Result<usize, String> {
+        if let Some(i) = self.by_hash.get(&view.hash()) {
+            return Ok(*i);
+        }
+        let parent = *self
+            .by_hash
+            .get(&view.parent_hash())
+            .ok_or_else(|| "parent unknown to the model".to_string())?;
+        let pst = self.st(parent).clone();
+        let pblock = self.blocks[parent].clone();
+        let number = pblock.number + 1;
+        if view.number() != number {
+            return Err(format!("number {} != parent+1 {}", view.number(), number));
+        }
+        let ep = self.next_epoch(&pst);
+        let frac = ep.fraction(number);
+        if view.epoch() != frac {
+            return Err(format!("epoch field {:#} != model {:#}", view.epoch(), frac));
+        }
+        if view.compact_target() != ep.compact {
+            return Err(format!("compact target {:#x} != model {:#x}", view.compact_target(), ep.compact));
+        }
+        let median = self.median_time(&pst.chain);
+        if view.timestamp() <= median {
+            return Err(format!("timestamp {} <= median {}", view.timestamp(), median));
+        }
+        // two-phase commit window
+        let win = self.proposed_in(&pst.chain, number.saturating_sub(self.cfg.w_far), number.saturating_sub(self.cfg.w_close));
+        // transactions: liveness inside the block, fees
+        let mut cells = pst.cells.clone();
+        let mut txs = pst.txs.clone();
+        let mut fees = Vec::new();
+        let mut added = 0u64;
+        let mut freed = 0u64;
+        let all = view.transactions();
+        if all.is_empty() || !all[0].is_cellbase() {
+            return Err("no leading cellbase".into());
+        }
+        let idx = self.blocks.len();
+        for (ti, tx) in all.iter().enumerate() {
+            if ti > 0 {
+                if number <= self.cfg.w_close || !win.contains(&tx.proposal_short_id()) {
+                    return Err(format!("tx {ti} committed outside the proposal window"));
+                }
+                if pst.txs.contains_key(&tx.hash()) {
+                    return Err(format!("tx {ti} already committed on this chain"));
+                }
+                let mut inc = 0u64;
+                for d in tx.cell_deps().into_iter() {
+                    if !cells.contains_key(&d.out_point()) {
+                        return Err(format!("tx {ti}: cell dep not live"));
+                    }
+                }
+                for i in tx.inputs().into_iter() {
+                    let c = cells
+                        .remove(&i.previous_output())
+                        .ok_or_else(|| format!("tx {ti}: input not live"))?;
+                    if !self.mature(&c, frac) {
+                        return Err(format!("tx {ti}: immature cellbase input"));
+                    }
+                    inc += c.capacity();
+                    freed += c.occupied();
+                }
+                let outc: u64 = tx.outputs_capacity().map(|c| c.as_u64()).map_err(|e| e.to_string())?;
+                if outc > inc {
+                    return Err(format!("tx {ti}: outputs exceed inputs"));
+                }
+                fees.push(inc - outc);
+            }
+            for (oi, (o, d)) in tx.outputs_with_data_iter().enumerate() {
+                added += occupied(&o, d.len());
+                cells.insert(
+                    OutPoint::new(tx.hash(), oi as u32),
+                    MCell {
+                        output: o,
+                        data: d,
+                        block_hash: view.hash(),
+                        block_number: number,
+                        block_epoch: frac,
+                        tx_index: ti,
+                    },
+                );
+            }
+            txs.insert(tx.hash(), (idx, ti));
+        }
+        // parents-before-children order is implied by the liveness replay above
+        // cellbase reward
+        let delay = self.cfg.w_far + 1;
+        let cb = &all[0];
+        if number > delay {
+            let target = number - delay;
+            let (p, s, c, pr) = self.reward_opt(&pst.chain, target, true);
+            let total = p + s + c + pr;
+            let tview = &self.blocks[pst.chain[target as usize]].view;
+            let tlock = packed::CellbaseWitness::from_slice(
+                &tview.transactions()[0].witnesses().get(0).unwrap().raw_data(),
+            )
+            .unwrap()
+            .lock();
+            let out = CellOutput::new_builder().capacity(Capacity::shannons(total)).lock(tlock.clone()).build();
+            if occupied(&out, 0) <= total {
+                let paid: u64 = cb.outputs_capacity().map(|c| c.as_u64()).unwrap_or(0);
+                if cb.outputs().len() != 1 || paid != total {
+                    return Err(format!("cellbase pays {paid}, model reward {total}"));
+                }
+                if cb.outputs().get(0).unwrap().lock().as_slice() != tlock.as_slice() {
+                    return Err("cellbase lock is not the target's".into());
+                }
+            } else if !cb.outputs().is_empty() {
+                return Err("cellbase output although reward cannot fund a cell".into());
+            }
+        } else if !cb.outputs().is_empty() {
+            return Err("cellbase output before any finalisation target".into());
+        }
+        // dao
+        let pd = &pst.dao;
+        let g2 = ep.secondary_issuance(number, self.cfg.secondary_epoch_reward);
+        let g = ep.block_reward(number) + g2;
+        let miner_issuance = (g2 as u128 * pd.u as u128 / pd.c as u128) as u64;
+        let dao = Dao {
+            c: pd.c + g,
+            u: pd.u + added - freed,
+            s: pd.s + (g2 - miner_issuance),
+            ar: pd.ar + (pd.ar as u128 * g2 as u128 / pd.c as u128) as u64,
+        };
+        if dao.pack() != view.header().dao() {
+            return Err(format!("dao field {:?} != model {:?}", Dao::unpack(&view.header().dao()), dao));
+        }
+        // extension / chain root
+        let root = self.chain_root(&pst.chain, pblock.number).calc_mmr_hash();
+        match view.extension() {
+            Some(e) if e.raw_data().len() >= 32 && e.raw_data().len() <= 96 && e.raw_data()[..32] == root.raw_data()[..] => {}
+            _ => return Err("extension does not start with the chain root of the parent chain".into()),
+        }
+        // uncles
+        let uncles = view.uncles();
+        if uncles.data().len() > MAX_UNCLES {
+            return Err("too many uncles".into());
+        }
+        let on_chain: BTreeSet<Byte32> = pst.chain.iter().map(|i| self.blocks[*i].view.hash()).collect();
+        for u in uncles.clone().into_iter() {
+            if u.compact_target() != ep.compact || u.epoch().number() != ep.number || u.number() >= number {
+                return Err("uncle epoch/target/number rule".into());
+            }
+            if on_chain.contains(&u.hash()) || pst.uncles.contains(&u.hash()) {
+                return Err("uncle double inclusion".into());
+            }
+            let ph = u.data().header().raw().parent_hash();
+            let embedded = uncles.clone().into_iter().any(|o| o.hash() == ph && o.number() + 1 == u.number());
+            if !(embedded || on_chain.contains(&ph) || pst.uncles.contains(&ph)) {
+                return Err("uncle parent is neither on the chain nor an included uncle".into());
+            }
+        }
+        let mut union_proposals: BTreeSet<ProposalShortId> = view.data().proposals().into_iter().collect();
+        let mut unc = pst.uncles.clone();
+        for u in uncles.clone().into_iter() {
+            union_proposals.extend(u.data().proposals().into_iter());
+            unc.insert(u.hash());
+        }
+        let mut chain = pst.chain.clone();
+        chain.push(idx);
+        let new_epoch = ep.number != pst.epoch.number;
+        let st = ChainState {
+            chain,
+            total_uncles: pst.total_uncles + uncles.data().len() as u64,
+            uncles_before_epoch: if new_epoch { pst.total_uncles } else { pst.uncles_before_epoch },
+            epoch_base_ts: if new_epoch { pblock.view.timestamp() } else { pst.epoch_base_ts },
+            epoch: ep.clone(),
+            total_difficulty: &pst.total_difficulty + bigmath::compact_to_difficulty(ep.compact),
+            dao,
+            cells,
+            txs,
+            uncles: unc,
+        };
+        self.blocks.push(MBlock {
+            idx,
+            parent: Some(parent),
+            number,
+            invalid: None,
+            chain_valid: pblock.chain_valid,
+            fees,
+            union_proposals,
+            st: Some(Arc::new(st)),
+            epoch: ep,
+            view: view.clone(),
+            miner: 0xff,
+        });
+        self.by_hash.insert(view.hash(), idx);
+        Ok(idx)
     }
 }
